@@ -239,6 +239,11 @@ def layout_name(c):
 
 def run(chk):
     run_config(chk, "default")
+    # the AVP list comes back whole and in order: the decoder's handling of the list of per-record results (C15)
+    from framework import Sub
+    import rules.c15 as c15
+    Sub(chk, "via C15 | ", lambda k: k.startswith("all-or-nothing") and ("accepted list" in k or "wire order" in k or k.endswith("try_read"))
+        ).borrow(c15, "default", 2, "accepted AVP list complete and in wire order")
     if chk.tier == "thorough":
         for cfg in ("debug", "release"):
             run_config(chk, cfg)
